@@ -191,14 +191,25 @@ func ParseCopySourceRange(size int64, acceptRange string) (int64, int64, error) 
 	return startOffset, endOffset - startOffset + 1, nil
 }
 
+// ReservedObjectNamespace is the top level name under which the storing
+// backends keep their bookkeeping inside a bucket (temporary files,
+// multipart upload staging). It is skipped by listings and removed with
+// the bucket, so it is not part of the bucket's key space.
+const ReservedObjectNamespace = ".sgwtmp"
+
 // IsObjectNameValid reports whether an object key can be mapped below its
 // bucket without being resolved to another location: no "." or ".."
 // segment and no empty segment other than a single trailing one (which
-// marks a directory object).
+// marks a directory object). Keys in the reserved bookkeeping namespace
+// are refused as well: an object stored there would be served but never
+// listed, and would be destroyed by DeleteBucket.
 func IsObjectNameValid(name string) bool {
 	segs := strings.Split(name, "/")
 	for i, s := range segs {
 		if s == "." || s == ".." {
+			return false
+		}
+		if i == 0 && s == ReservedObjectNamespace {
 			return false
 		}
 		if s == "" && i != len(segs)-1 {
